@@ -6,6 +6,7 @@ import (
 	"errors"
 	"fmt"
 	"math"
+	"strings"
 
 	simdjson "github.com/minio/simdjson-go"
 )
@@ -615,7 +616,27 @@ func genHistDoc(r *Run, nd bool, big bool) []byte {
 		target = 2000 + c.Intn("hbig", 30000)
 	}
 	if !nd {
-		return one(target)
+		d := one(target)
+		if c.Intn("edgews", 4) == 0 {
+			// ASCII white space around the document (results may be offsets into the caller's buffer)
+			lead := []string{" ", "\n", "\t \r\n", "   ", ""}[c.Intn("edgelead", 5)]
+			trail := []string{" ", "\n", "\r\n\t ", "", "  \n"}[c.Intn("edgetrail", 5)]
+			if c.Intn("edgebig", 4) == 0 {
+				// padding that carries the raw length over an internal size threshold the trimmed document stays below
+				big := strings.Repeat([]string{" ", "\n", " \t", "\r\n"}[c.Intn("edgebigk", 4)], 1+c.Intn("edgebign", 5000))
+				switch c.Intn("edgebigside", 3) {
+				case 0:
+					lead += big
+				case 1:
+					trail += big
+				default:
+					lead += big[:len(big)/2]
+					trail += big[len(big)/2:]
+				}
+			}
+			d = append(append([]byte(lead), d...), trail...)
+		}
+		return d
 	}
 	var buf bytes.Buffer
 	lines := 1 + c.Intn("hlines", 4)
@@ -670,7 +691,22 @@ var setValsFloat = []float64{0, 1.5, -2.25, 1e21, 1e-7, 5e-324, math.MaxFloat64,
 	9223372036854775808.0, -9223372036854775808.0, 18446744073709551616.0, 9223372036854774784.0, 4294967296.0, 9007199254740992.0}
 
 func drawSetString(c *Chooser) []byte {
-	switch c.Intn("ssk", 5) {
+	switch c.Intn("ssk", 6) {
+	case 5:
+		// one byte that needs escaping somewhere inside plain filler (every such byte, at every alignment)
+		n := 1 + c.Intn("sscn", 40)
+		b := bytes.Repeat([]byte{'a'}, n)
+		if c.Intn("sscfill", 3) == 0 {
+			b = bytes.Repeat([]byte("é"), n)
+		}
+		esc := byte(c.Intn("sscb", 34))
+		if esc == 32 {
+			esc = '"'
+		} else if esc == 33 {
+			esc = '\\'
+		}
+		b[c.Intn("sscpos", len(b))] = esc
+		return b
 	case 0:
 		return []byte{}
 	case 1:
@@ -1044,7 +1080,22 @@ func opDeleteAt(r *Run, o *simObj, what string, forcedPos Pos, forcedMask int) {
 			}
 		}
 		var derr error
+		filterBefore := make([]string, 0, len(onlyKeys))
+		for k := range onlyKeys {
+			filterBefore = append(filterBefore, k)
+		}
 		e = safely(func() error { derr = obj.DeleteElems(fn, onlyKeys); return nil })
+		if e == nil && len(onlyKeys) != len(filterBefore) {
+			// the key filter belongs to the caller (it is typically reused for the next object / document)
+			r.violate("delete", "filter-modified", fmt.Sprintf("%s: Object.DeleteElems changed the caller's key filter from %d to %d keys", what, len(filterBefore), len(onlyKeys)))
+			return
+		}
+		for _, k := range filterBefore {
+			if _, ok := onlyKeys[k]; !ok && e == nil {
+				r.violate("delete", "filter-modified", fmt.Sprintf("%s: Object.DeleteElems removed key %q from the caller's key filter", what, k))
+				return
+			}
+		}
 		if e != nil {
 			walkerFail(r, "delete", what+": Object.DeleteElems", e)
 			return
@@ -1129,13 +1180,24 @@ func RunHistEdit(r *Run, profile string) {
 		r.Res.Sample["subject"] = "deserialized"
 		r.stat("deserialized_subjects", 1)
 	}
+	if c.Intn("clonedsubject", 8) == 0 {
+		// the tape being edited is a clone (its buffers were laid out by Clone, not by the parser)
+		var cl *simdjson.ParsedJson
+		if err := safely(func() error { cl = o.pj.Clone(nil); return nil }); err != nil {
+			walkerFail(r, "clone", "preparing a cloned subject", err)
+			return
+		}
+		o = &simObj{pj: cl, model: o.model, nd: o.nd, copy: true, origin: "clone of " + o.origin}
+		r.Res.Sample["subject"] = fmt.Sprint(r.Res.Sample["subject"], " cloned")
+		r.stat("cloned_subjects", 1)
+	}
 	if profile == "delete" && c.Intn("allsubsets", 6) == 0 {
 		// every subset of the members of one small container, each on a fresh parse of the same document
 		var small []Pos
 		for _, p := range allContainers(o.model) {
 			m := getAt(o.model, p)
 			n := len(m.Arr) + len(m.Keys)
-			if n >= 1 && n <= 5 {
+			if n >= 1 && n <= 5 && !(huge && n > 3) {
 				small = append(small, p)
 			}
 		}
@@ -1153,7 +1215,12 @@ func RunHistEdit(r *Run, profile string) {
 				if r.failed() {
 					break
 				}
-				readBack(r, o2, bAll, "after deleting "+what, sers)
+				if huge {
+					// a full battery over a huge tape costs seconds; the subsets of one container are the subject here
+					readBack(r, o2, bInto|bAdv|bSerial, "after deleting "+what, sers)
+				} else {
+					readBack(r, o2, bAll, "after deleting "+what, sers)
+				}
 				r.Res.Evals++
 			}
 			r.Res.Exhaustive = true
